@@ -495,7 +495,13 @@ func runC12(r *vk.Run) {
 			}
 			return a
 		}
-		switch rng.Intn(12) {
+		switch rng.Intn(14) {
+		case 12:
+			// vector(N) is a vector of ONE series with the empty label set, not a number: against series that
+			// carry labels it pairs with none of them
+			b.L, b.R, shape = left, vec(), "X op vector"
+		case 13:
+			b.L, b.R, shape = vec(), left, "vector op X"
 		case 10:
 			b.L, b.R, shape = agg(), aggBy(), "sum(X) op sum by () (X)"
 			if rng.Bool() {
